@@ -30,6 +30,10 @@ pub fn narrow_false_or_nil(db: &DbIndex, t: LuaType) -> LuaType {
         LuaType::Nil | LuaType::BooleanConst(false) | LuaType::DocBooleanConst(false) => {
             return t;
         }
+        // `any` / `unknown` may hold false or nil: keep them instead of declaring the falsy branch dead
+        LuaType::Any | LuaType::Unknown => {
+            return t;
+        }
         _ => {}
     }
 
